@@ -693,7 +693,9 @@ impl Monitors {
                     for (_, data) in rec.sends() {
                         if let Ok(p) = parse_datagram(self.codec, data) {
                             if let Some(ms) = &p.members {
-                                if ms.iter().any(|(m, _)| *m.id() == prev && m.state() == State::Down) {
+                                // (a later Down update about another identity of the same address supersedes it:
+                                // one pending update per address)
+                                if ms.iter().any(|(m, _)| m.id().addr == prev.addr && m.state() == State::Down) {
                                     in_sends = true;
                                 }
                             }
